@@ -344,8 +344,11 @@ def run_histories(chk, srcs, plans):
         # every other history runs with the slot values the runtime really passes (none outside dynamic-slot content) instead of probes
         sv = i % 2 == 0
         epoch = ([0] + [st["slotEpoch"] for st in steps if "slotEpoch" in st])[-1]
-        reqs.append({"op": "render", "gen_groups": g["gen_groups"], "path": "p", "steps": steps, "slotValues": sv})
-        reqs.append({"op": "render", "gen_groups": g["gen_groups"], "path": "p", "steps": [{"create": hist[-1], "epoch": epoch}], "slotValues": sv})
+        # runtime options by turns: the host's own shadow root in dynamic-slot mode (<slot> elements then hold slot values), legacy event
+        # attributes on native nodes (`fallbackListenerOnNativeNode`)
+        opt = {"dynamicSlots": i % 4 == 1, "fallbackListener": i % 4 == 3}
+        reqs.append(dict({"op": "render", "gen_groups": g["gen_groups"], "path": "p", "steps": steps, "slotValues": sv}, **opt))
+        reqs.append(dict({"op": "render", "gen_groups": g["gen_groups"], "path": "p", "steps": [{"create": hist[-1], "epoch": epoch}], "slotValues": sv}, **opt))
         meta.append((i, hist, steps))
     outs = core.run_node(reqs)
     nb = 0
@@ -359,7 +362,8 @@ def run_histories(chk, srcs, plans):
             # the updated instance threw although a fresh creation with the same data works
             nb += 1
             if nb <= 3:
-                chk.violation("input", f"update threw: {a.get('error')}", template=srcs[i], history=hist, steps=steps, slotValues=i % 2 == 0)
+                chk.violation("input", f"update threw: {a.get('error')}", template=srcs[i], history=hist, steps=steps, slotValues=i % 2 == 0,
+                              options={"dynamicSlots": i % 4 == 1, "fallbackListener": i % 4 == 3})
             continue
         upd = up.project_state(a["snapshots"][-1]["tree"])
         first = up.project_state(a["snapshots"][0]["tree"])
@@ -369,7 +373,8 @@ def run_histories(chk, srcs, plans):
             nb += 1
             if nb <= 3:
                 chk.violation("input", "tree after incremental update differs from a fresh creation with the final data",
-                              template=srcs[i], history=hist, steps=steps, updated=upd, fresh=fresh, slotValues=i % 2 == 0)
+                              template=srcs[i], history=hist, steps=steps, updated=upd, fresh=fresh, slotValues=i % 2 == 0,
+                              options={"dynamicSlots": i % 4 == 1, "fallbackListener": i % 4 == 3})
     chk.programs = len(meta)
     chk.bump("oracle:histories", len(meta))
     chk.bump("oracle:stale", nb)
@@ -381,9 +386,10 @@ def replay(chk, path):
         g = render.compile_templates([[["p", o["template"]]]])[0]
         epoch = ([0] + [st["slotEpoch"] for st in o["steps"] if "slotEpoch" in st])[-1]
         sv = o.get("slotValues", True)
-        a, b = core.run_node([{"op": "render", "gen_groups": g["gen_groups"], "path": "p", "steps": o["steps"], "slotValues": sv},
-                              {"op": "render", "gen_groups": g["gen_groups"], "path": "p", "steps": [{"create": o["history"][-1], "epoch": epoch}],
-                               "slotValues": sv}])
+        opt = o.get("options", {})
+        a, b = core.run_node([dict({"op": "render", "gen_groups": g["gen_groups"], "path": "p", "steps": o["steps"], "slotValues": sv}, **opt),
+                              dict({"op": "render", "gen_groups": g["gen_groups"], "path": "p", "steps": [{"create": o["history"][-1], "epoch": epoch}],
+                                    "slotValues": sv}, **opt)])
         if "error" in a:
             chk.violation("input", "replayed: update threw " + str(a["error"]), template=o["template"], history=o["history"], steps=o["steps"])
             return chk.finish()
